@@ -46,7 +46,7 @@ where
     const NUL: u8 = 0x00;
 
     let mut iter = frequencies.iter().enumerate();
-    let mut prev_sym = 0;
+    let mut prev_sym = None;
 
     while let Some((sym, &f)) = iter.next() {
         if f == 0 {
@@ -56,9 +56,12 @@ where
         // SAFETY: `sym <= ALPHABET_SIZE`.
         write_u8(writer, sym as u8)?;
 
-        if sym > 0 && sym - 1 == prev_sym {
+        if prev_sym.is_some_and(|prev_sym| prev_sym + 1 == sym) {
             let i = sym + 1;
-            let len = frequencies[i..].iter().position(|&g| g == 0).unwrap_or(0);
+            let len = frequencies[i..]
+                .iter()
+                .position(|&g| g == 0)
+                .unwrap_or(frequencies[i..].len());
 
             // SAFETY: `len < ALPHABET_SIZE`.
             write_u8(writer, len as u8)?;
@@ -67,7 +70,7 @@ where
 
             for (sym, &g) in iter.by_ref().take(len) {
                 write_itf8(writer, i32::from(g))?;
-                prev_sym = sym;
+                prev_sym = Some(sym);
             }
 
             continue;
@@ -75,7 +78,7 @@ where
 
         write_itf8(writer, i32::from(f))?;
 
-        prev_sym = sym;
+        prev_sym = Some(sym);
     }
 
     write_u8(writer, NUL)?;
